@@ -112,4 +112,4 @@ def run(ctx: core.Ctx):
                 ctx.broken.append("size-state-machine-correspondence")
                 ctx.extra["first_size_disagreement"] = {"id": r["id"], "model": o, "real_H": r["H"], "root": {k: v for k, v in r["roots"][-1].items() if k != "iters"}}
     if ctx.tier == "thorough":
-        ctx.leanchecker(["GHEVerif.Props.C12", "GHEVerif.Model.Report"])
+        ctx.leanchecker(["GHEVerif.Props.C12", "GHEVerif.Model.Report", "GHEVerif.Lemmas.Pipeline"])
